@@ -145,7 +145,14 @@ impl PatchIndexHeader {
             u32::from_le_bytes([data[pos], data[pos + 1], data[pos + 2], data[pos + 3]]);
         pos += 4;
 
-        // Read block descriptors
+        // Read block descriptors (8 bytes each; the count comes from the file, so
+        // check it against the remaining data before reserving memory for it)
+        if block_count as usize > (data.len() - pos) / 8 {
+            return Err(PatchIndexError::TruncatedHeader {
+                header_size,
+                actual: data.len(),
+            });
+        }
         let mut blocks = Vec::with_capacity(block_count as usize);
         for _ in 0..block_count {
             if pos + 8 > data.len() {
